@@ -774,6 +774,25 @@ def expand_long(tpl):
     return out
 
 
+def history_with_destroys(d, prof, nconn=None):
+    """connections come and go: libwayland destroys one and a later connection lives at the same address - a new connection
+    with a fresh table (ids start over). Destruction is an item `dict(destroy=True, conn=tag, t_us=...)`"""
+    tags = gen_tags(d, nconn or d.int(1, 2), tagged=True)
+    gens = {t: ConnGen(t, d.choice(['client', 'server']), prof) for t in tags}
+    specs, t_us = [], d.choice([0, 1000, 123456789])
+    for _ in range(d.int(6, 40)):
+        tag = d.choice(tags)
+        t_us += next_gap(d)
+        if gens[tag].started and d.chance(0.12):
+            specs.append(dict(destroy=True, conn=tag, t_us=t_us))
+            gens[tag] = ConnGen(tag, d.choice(['client', 'server']), prof)
+            continue
+        m = gens[tag].next(d)
+        m['conn'], m['t_us'] = tag, t_us
+        specs.append(m)
+    return specs
+
+
 def labels_of(hist):
     """case classes of a history (for the evidence histogram)"""
     from . import model
